@@ -1,6 +1,6 @@
 """Single source for MANIFEST.json (bin/mkmanifest)."""
 
-HOOK_COMMITS = []
+HOOK_COMMITS = ["99fd8c0", "15c9526"]
 
 ENGINES = [
     {"name": "tlc", "path": "/verif/spec", "kind_free_text": "TLA+ specifications checked with TLC: E1 design check, E2 case/behaviour generation, E3 trace validation",
@@ -45,6 +45,11 @@ CHECKS = {
         "text": "Model checking: the same client specification with two timelines sharing a prefix of 0-3 records, a server that answers from either timeline and switches up to twice, one client across a restart or two clients sharing configuration and cache; TLC checks ConfigChain, MemChain, SecurityIsReal, SecurityHasBoth, CacheAuthentic. Every behaviour is replayed into the real client with observers for: stored head only moves to a signed extension, no two inconsistent heads stored, a presented fork fails the lookup and leaves the stored head alone, security reports carry both signed notes. Random forks at sizes up to 500 and heights up to 8 are trace-validated.",
         "note": "Trusted: as C01. Fine-grained interleavings of clients writing the shared configuration are explored under C14's configurations; here multi-client histories are sequential per lookup.",
         "technique": TLA + "two-timeline client state machine explored by TLC, behaviours replayed into the real client, recorded fork runs trace-validated",
+    },
+    "C14": {
+        "text": "Model checking of interleavings: the client specification with every separately atomic region of the implementation as its own action (sync.Once, record-cache claim and wait, snapshot / compare-and-set install with retry, configuration compare-and-swap with retry) is explored exhaustively by TLC for 1x2 and 2x1 (quick) and 2x2, 1x3, 3x1 (thorough) threads against an honest growing server. Schedules drawn by TLC (plain and race-directed: only behaviours with a write conflict or an install retry) are replayed deterministically into the real client through gates at every ClientOps call and verif hook point, with zero drift on the unchanged tree; 8-64 free-running goroutines x 1-3 clients against the repository's Server/TestServer are recorded under the race detector and validated by SumdbMonitor.",
+        "note": "The 'no data races' clause is decided by the Go race detector, not by TLC. Tile fetches are atomic and honest in these configurations. Trusted: goroutine-state polling for quiescence (a wrong quiescence verdict costs drift, not soundness).",
+        "technique": TLA + "exhaustive interleaving exploration, TLC-simulated schedules replayed through a gate scheduler into the real client, recorded concurrent runs trace-validated",
     },
 }
 
